@@ -170,7 +170,7 @@ OWait == /\ lt["O"].pc = "idle" /\ running /\ ~ShutSent /\ Outstanding > 0
          /\ Log("O", "OWait", [x |-> 0])
          /\ UNCHANGED <<q, sig, alloc, eof, running, ended, round, nsent, xsent, npolls, tloop, nintr, sentH, recvH, handled>>
 \* GetNextReplyFromInternalThread() with a deadline: may be called at any time, returns a reply or B_TIMED_OUT
-OWaitTimed == /\ lt["O"].pc = "idle" /\ npolls < MaxPolls
+OWaitTimed == /\ lt["O"].pc = "idle" /\ running /\ npolls < MaxPolls
               /\ lt' = [lt EXCEPT !["O"] = WaitStart("own", "timed", "idle")]
               /\ npolls' = npolls + 1
               /\ Log("O", "OWaitTimed", [x |-> 0])
